@@ -34,7 +34,7 @@ ASSUMPTIONS = [
 ]
 PROBES = ["page tree 70 to 300 levels deep", "page tree more than 1000 levels deep", "/Parent points elsewhere", "walk abandoned, then repeated on the same document", "fault:repeat", "fault:self", "fault:ancestor", "fault:root", "fault:cross", "reversed corners", "rotate negative", "indirect attribute", "inherited from grandparent", "consumer stopped early", "page_numbers with maxpages", "eviction happened"]
 TIERS = {
-    "quick": {"batches": 16, "runs": 700, "budget_s": 45},
+    "quick": {"batches": 16, "runs": 700, "budget_s": 90},
     "thorough": {"batches": 128, "runs": 800, "budget_s": 900},
 }
 DETERMINISM_SLICE = 4
